@@ -9,12 +9,12 @@ import (
 	"context"
 	"crypto/sha256"
 	"encoding/hex"
-	"sync/atomic"
 	"fmt"
 	"net/http"
 	"sort"
 	"strings"
 	"sync"
+	"sync/atomic"
 	"time"
 	"unicode/utf8"
 
@@ -48,7 +48,7 @@ type c15Item struct {
 	body      string // hash of the body that carries it
 	service   string
 	dispatchN int
-	offender  bool     // carries a string that is not valid UTF-8 (tag, source or set member)
+	offender  bool // carries a string that is not valid UTF-8 (tag, source or set member)
 	rawTags   []string
 	rawSource string
 }
@@ -83,7 +83,7 @@ func decodeBody(r *HTTPReq) (map[SeriesKey]*Obs, int) {
 
 func (c15) Run(e *Env) {
 	e.ProbeDecl("dispatcher-parked-across-flush-begin", "retry-after-5xx", "retry-after-conn-error", "retry-after-lost-response", "abandoned-after-window", "abandoned-retries-off",
-		"slow-response-client-timeout", "several-bodies-per-flush", "max-requests-saturated", "manual-flush", "ticker-flush", "flush-parked-after-drain", "4xx", "non-utf8-string")
+		"slow-response-client-timeout", "several-bodies-per-flush", "max-requests-saturated", "manual-flush", "ticker-flush", "flush-parked-after-drain", "4xx", "non-utf8-string", "header-tag-repeated", "pipelined-manual-flush")
 	slots := e.Range(1, 4)
 	maxReq := e.Range(1, 4)
 	concMerge := e.Range(1, 3)
@@ -194,7 +194,7 @@ func (c15) Run(e *Env) {
 	var items []*c15Item
 	bodies := map[string]*c15Body{}
 	var bodyOrder []string
-	bitOwner := map[string]*c15Item{} // series|bit, series|value, series|member -> item
+	bitOwner := map[string]*c15Item{}  // series|bit, series|value, series|member -> item
 	offenders := map[string]*c15Item{} // "v<value>" / "mx<id>" -> datapoint carrying a non-UTF-8 string
 	// a datapoint with a non-UTF-8 string cannot arrive byte for byte (proto3 strings are UTF-8); it is
 	// recognised by its run-unique value or member, under the same type and name, with every valid
@@ -237,8 +237,18 @@ func (c15) Run(e *Env) {
 	}
 	seqBits := map[string]int{}
 	reqSeen := 0
-	flushBegins := []uint64{} // event seq at which each flush was triggered
+	flushBegins := []uint64{}                  // event seq at which each flush was triggered
 	var flushInProgressA, waitingA atomic.Bool // manual flush goroutine running / WaitForFlush pending
+	// pipelined use of the coordinator: Flush and WaitForFlush are issued independently (as by two
+	// goroutines); every flush must still produce exactly one notification, none lost, none extra
+	pipelined := manual && e.Chance(1, 3)
+	manualFlushes, waitsIssued := 0, 0
+	startWait := func() {
+		waitsIssued++
+		waitingA.Store(true)
+		wg.Add(1)
+		go func() { defer wg.Done(); fc.WaitForFlush(); waitingA.Store(false) }()
+	}
 	nextID := 0
 	dispatchN := 0
 	var lastRetryable time.Time
@@ -310,14 +320,23 @@ func (c15) Run(e *Env) {
 						}
 					}
 					for _, dn := range dynNames {
-						wantV := ""
+						// the header carries the value of the series' tag of that name (any of them when
+						// the series repeats the tag name), and is absent when the series has no such tag
+						var wants []string
 						for _, t := range o.Tags {
 							if strings.HasPrefix(t, dn+":") {
-								wantV = t[len(dn)+1:]
+								wants = append(wants, t[len(dn)+1:])
 							}
 						}
-						if got := r.Header.Get(dn); got != wantV {
-							e.Failf("C15/dynamic-header-mismatch", "series %s travels in a request with header %s=%q", k, dn, got)
+						got, ok := r.Header.Get(dn), false
+						for _, w := range wants {
+							ok = ok || got == w
+						}
+						if len(wants) == 0 {
+							ok = got == ""
+						}
+						if !ok {
+							e.Failf("C15/dynamic-header-mismatch", "series %s travels in a request with header %s=%q (its tags of that name: %q)", k, dn, got, wants)
 						}
 					}
 				}
@@ -445,11 +464,18 @@ func (c15) Run(e *Env) {
 		}
 		bmu.Unlock()
 		e.State("req=%d yield=%d idle=%d flushes=%d manualInProgress=%v", len(reqP), len(yP), len(idle), len(flushBegins), flushInProgressA.Load())
-		canFlush := 1
-		if manual && (flushInProgressA.Load() || waitingA.Load()) {
+		canFlush, canWait := 1, 0
+		if manual && (flushInProgressA.Load() || (waitingA.Load() && !pipelined)) {
 			canFlush = 0
 		}
-		switch e.Weighted("c15", []int{5 * minInt(1, len(idle)), 4 * len(yP), 3 * canFlush, 6 * len(reqP), 2, 1}) {
+		if pipelined && !waitingA.Load() && waitsIssued < manualFlushes {
+			canWait = 2
+		}
+		switch e.Weighted("c15", []int{5 * minInt(1, len(idle)), 4 * len(yP), 3 * canFlush, 6 * len(reqP), 2, 1, canWait}) {
+		case 6:
+			e.Probe("pipelined-manual-flush")
+			e.Event("WaitForFlush %d", waitsIssued+1)
+			startWait()
 		case 0: // dispatch a batch of unique datapoints
 			d := idle[e.Choose("dispatcher", len(idle))]
 			mm := gostatsd.NewMetricMap(false)
@@ -463,6 +489,10 @@ func (c15) Run(e *Env) {
 				it.service = services[e.Draw(len(services))]
 				if it.service != "" {
 					tags = append(tags, "service:"+it.service)
+					if e.Chance(1, 6) {
+						tags = append(tags, "service:"+it.service+"2") // the header tag name repeated on one series
+						e.Probe("header-tag-repeated")
+					}
 				}
 				if e.Chance(1, 4) {
 					tags = append(tags, "team:x")
@@ -566,11 +596,13 @@ func (c15) Run(e *Env) {
 			}
 			flushBegins = append(flushBegins, e.NextSeq())
 			if manual {
+				manualFlushes++
 				flushInProgressA.Store(true)
-				waitingA.Store(true)
-				wg.Add(2)
+				wg.Add(1)
 				go func() { defer wg.Done(); fc.Flush(); flushInProgressA.Store(false) }()
-				go func() { defer wg.Done(); fc.WaitForFlush(); waitingA.Store(false) }()
+				if !pipelined {
+					startWait()
+				}
 				e.Event("manual flush %d", len(flushBegins))
 			} else {
 				d := nextTick()
@@ -687,7 +719,12 @@ func (c15) Run(e *Env) {
 		if manual {
 			// the coordinator's user (the Lambda manager) alternates Flush and WaitForFlush; while a
 			// wait is pending it cannot ask for another flush, so nothing dispatched later would leave
-			for i := 0; waitingA.Load(); i++ {
+			for i := 0; waitingA.Load() || waitsIssued < manualFlushes; i++ {
+				if !waitingA.Load() {
+					startWait() // pipelined: consume the notifications of the flushes already issued
+					e.Settle()
+					continue
+				}
 				if i > 50 {
 					e.Failf("C15/flush-never-notified", "%s: WaitForFlush has not returned although every request of the flush was answered long ago (flushes so far %d, bodies %d): the caller can never flush again", tag, len(flushBegins), len(bodyOrder))
 				}
@@ -697,11 +734,11 @@ func (c15) Run(e *Env) {
 		}
 		flushBegins = append(flushBegins, e.NextSeq())
 		if manual {
+			manualFlushes++
 			flushInProgressA.Store(true)
-			waitingA.Store(true)
-			wg.Add(2)
+			wg.Add(1)
 			go func() { defer wg.Done(); fc.Flush(); flushInProgressA.Store(false) }()
-			go func() { defer wg.Done(); fc.WaitForFlush(); waitingA.Store(false) }()
+			startWait()
 		} else {
 			time.Sleep(nextTick())
 		}
@@ -767,6 +804,24 @@ func (c15) Run(e *Env) {
 		if maxReq > 1 {
 			e.Probe("several-bodies-per-flush")
 		}
+	}
+	if manual {
+		// every flush has been waited for; one more wait must not return (a flush notifies once)
+		for i := 0; waitingA.Load(); i++ {
+			if i > 50 {
+				e.Failf("C15/flush-never-notified", "end of run: the WaitForFlush for flush %d of %d has not returned", waitsIssued, manualFlushes)
+			}
+			time.Sleep(200 * time.Millisecond)
+			e.Settle()
+		}
+		startWait()
+		time.Sleep(2 * time.Second)
+		e.Settle()
+		if !waitingA.Load() {
+			e.Failf("C15/flush-notified-twice", "%d manual flushes were each waited for, yet one more WaitForFlush returned: some flush notified the coordinator more than once", manualFlushes)
+		}
+		fc.NotifyFlush() // release the probe
+		e.Settle()
 	}
 	e.Note["bodies"] = len(bodyOrder)
 	e.Note["datapoints"] = len(items)
